@@ -186,3 +186,13 @@ Theorem C06_resolver_started_call_is_never_cancelled :
     ExecStarted.started (getf (DepExec.dbase d') i).
 Proof. exact ExecStarted.dep_started_stays. Qed.
 Print Assumptions C06_resolver_started_call_is_never_cancelled.
+
+(* ... and with cache_directory: the cache steps of the worker threads (hit path included) never turn a
+   started call into a cancelled one either (Proofs/CacheStarted.v) *)
+From EL Require Proofs.CacheStarted.
+Theorem C06_cached_started_call_is_never_cancelled :
+  forall c s t s' l i,
+    CacheExec.cstep c s t = Some (s', l) -> ExecStarted.started (getf (CacheExec.cb s) i) ->
+    ExecStarted.started (getf (CacheExec.cb s') i).
+Proof. exact CacheStarted.cache_started_stays. Qed.
+Print Assumptions C06_cached_started_call_is_never_cancelled.
